@@ -53,6 +53,9 @@ CHECKS = {
  'C16': dict(level='model_checking', ref='3/C16', technique='TLA+ model of inline conflict resolution (SpanResolve.tla: stated pair rule + fold) checked exhaustively by TLC; every configuration realised with real custom tokens (spec -> code); observed forests judged by TLC (SpanTrace!Cover)',
    text='TLC enumerates every ordered pair of candidates over positions 0..3/0..4 x precedences x parse_inner x parse groups, checks the fold against the stated rule and exports the admissible outcomes; each configuration is run through the real tokenizer with custom SpanToken classes (both list orders for equal starts). Random triples/quadruples go through the model fold in batch; every observed forest (also from random regex tokens over random texts) is judged for tiling by TLC, and scoping after context exit is checked.',
    note='Trusted: the realisation of candidates as SpanToken subclasses with a custom find (the documented override) and the projection by recorded offsets in harness/c16.py; the two cases the statement leaves open are admitted both ways.'),
+ 'C17': dict(level='exploration', ref='3/C17', technique='TLA+ acceptor and non-interference law over the structural skeleton of LaTeX output (LatexOut.tla: brace depth, environment stack, vocabulary, skeleton equality with the placeholder rendering) judged by TLC on recorded outputs (trace validation)',
+   text='Real LaTeXRenderer outputs (corpus, mutations, random, payload documents) are lexed with TeX lexical rules into skeletons; TLC runs the acceptor and compares each skeleton with that of the same tree rendered with all text-bearing attributes replaced by placeholders. Known call sites are identified differentially (neutralising only image sources / only code languages).',
+   note='Trusted: the TeX lexer and placeholder substitution in harness/c17.py; inputs are sampled; inputs containing $ are judged by the acceptor only.'),
  'C18': dict(level='exploration', ref='3/C18', technique='TLA+ law (Laws!ConservativeLaw) judged by TLC on recorded outputs (trace validation)',
    text='For sampled inputs meeting each renderer\'s side condition, the contrib renderer\'s output and HtmlRenderer\'s output (same options) are judged by TLC.',
    note='Trusted: side conditions ("[[", "$" textual; code block from the HTML renderer\'s parse as the statement phrases it); TLC.'),
